@@ -81,6 +81,14 @@ def variable_laws():
         cands += [rng.uniform(-2, 5, n).tolist() for _ in range(6)]
         cands += [[0.0] * n, [float(i) for i in range(n)], [i * (n - 1) / max(1, n - 1) if i in (0, n - 1) else i - 0.5 for i in range(n)],
                   np.arange(n)[::-1], [1e300 * (-1) ** i for i in range(n)], [INF if i == 0 else float(i) for i in range(n)]]
+        for x in list(cands):
+            # the same candidate as an ndarray: same answer, and the caller's array is left as it was
+            if not isinstance(x, np.ndarray):
+                arr = np.array(x, dtype=float)
+                keep = arr.copy()
+                ca = v.correct(arr)
+                law("C13", f"Permutation[{n}].correct(ndarray {list(x)!r}) = correct(list) and leaves the array alone",
+                    ca == v.correct(list(x)) and np.array_equal(arr, keep, equal_nan=True), f"{ca!r} vs {v.correct(list(x))!r}; array now {arr.tolist()!r}")
         for x in cands:
             c = v.correct(x)
             okc = isinstance(c, list) and sorted(c) == list(range(n)) and all(is_int(e) for e in c)
@@ -246,9 +254,18 @@ def task_laws():
             exp = [fv.correct(x) for fv, x in zip(own, raw)]
             law(f"[same layout #{k}] correct_solution uses this task's own domains", c == exp, f"{c!r} vs {exp!r}")
             law(f"[same layout #{k}] corrected coordinates lie within this task's bounds", all(l <= x <= u for x, l, u in zip(c, elb, eub)), f"{c!r}")
-    # single permutation variable
+    # single permutation variable (a second, shorter one is built afterwards: label encoders must not share state)
     pv = PermutationVariable(name="p", items=["a", "b", "c", "d"])
     t = T(variables=[pv])
+    pv_short = PermutationVariable(name="q", items=["x", "y"])
+    t_short = T(variables=[pv_short])
+    law("[P] a later, shorter permutation task does not disturb the first one's decoding",
+        t.transform_solution([[3, 1, 0, 2]]) == {"p": ["d", "b", "a", "c"]} and t_short.transform_solution([[1, 0]]) == {"q": ["y", "x"]},
+        f"{t.transform_solution([[3, 1, 0, 2]])} / {t_short.transform_solution([[1, 0]])}")
+    lbp, ubp = t.get_bounds()
+    law("[P] get_bounds: one pair for the one coordinate, the variable's own bounds", len(lbp) == 1 and len(ubp) == 1 and
+        list(np.asarray(lbp[0]).ravel()) == list(pv.get_bounds()[0]) and list(np.asarray(ubp[0]).ravel()) == list(pv.get_bounds()[1]),
+        f"{lbp!r} {ubp!r}")
     law("[P] dimension", t.space_dimension == 1 and len(t.get_variables()) == 1)
     e = t.empty_solution()
     law("[P] empty_solution", len(e) == 1 and sorted(e[0]) == [0, 1, 2, 3])
